@@ -77,6 +77,7 @@ type Header struct {
 
 type Typedef struct {
 	Name string
+	Zoo  string // generator: the root kind this typedef was reserved for ("" = free choice)
 	Type *TypeRef
 	Ann  []Ann
 	Doc  *Doc
